@@ -1,0 +1,49 @@
+//go:build verif
+
+// Contracts for govc (see /verif/DESIGN.md). Comment-only file: no executable code.
+
+package contract
+
+// ---------------------------------------------------------------------------
+// C15: a plain ICX transfer moves exactly the value between the two accounts of the ghost ledger
+// (state/zz_contracts_verif.go): nothing is created or destroyed, also when sender == recipient
+// ---------------------------------------------------------------------------
+
+//@ property C15
+//@ func (cc CallContext) ReadOnlyMode() (r)
+//@   iface
+//@   trusted
+//@   pure
+//@ func (cc CallContext) OnEvent(addr, indexed, data)
+//@   iface
+//@   trusted
+//@   pure
+//@ spec fromOf(h, cc) = acct_of(cc, addr_id(h.From))
+//@ spec toOf(h, cc) = acct_of(cc, addr_id(h.To))
+//@ func (h *TransferHandler) DoExecuteSync(cc) (err, ro, addr)
+//@   arith int
+//@   nosafety
+//@   requires h != nil && h.CommonHandler != nil && cc != nil && h.Value != nil && h.From != nil && h.To != nil
+//@   modifies ghost(bal), ghost(bal_stale)
+//@   ensures [guard] err == nil ==> big(h.Value) >= 0 && old(ghost(bal))[fromOf(h, cc)] >= big(h.Value)
+//@   ensures [moved] err == nil && fromOf(h, cc) != toOf(h, cc) ==> ghost(bal)[fromOf(h, cc)] == old(ghost(bal))[fromOf(h, cc)] - big(h.Value) && ghost(bal)[toOf(h, cc)] == old(ghost(bal))[toOf(h, cc)] + big(h.Value)
+//@   ensures [self] err == nil && fromOf(h, cc) == toOf(h, cc) ==> ghost(bal)[fromOf(h, cc)] == old(ghost(bal))[fromOf(h, cc)]
+//@   ensures [others] forall a iface :: {ghost(bal)[a]} a != fromOf(h, cc) && a != toOf(h, cc) ==> ghost(bal)[a] == old(ghost(bal))[a]
+
+// C15: the execution context as far as fee charging sees it. Reset rolls the world state back to a
+// snapshot: every ledger balance may change.
+//@ func (c Context) Reset(wcs)
+//@   iface
+//@   trusted
+//@   modifies *
+//@   opt ghost:bal ghost(bal_after_reset)
+//@   opt ghost:bal_stale true
+//@ smt all (declare-ghost bal_after_reset (Array Iface Int))
+//@ func (cc CallContext) ClearRedeemLogs()
+//@   iface
+//@   trusted
+//@   pure
+//@ func (cc CallContext) Revision() (r)
+//@   iface
+//@   trusted
+//@   pure
